@@ -471,17 +471,28 @@ func runC16(c *Ctx) {
 				}
 				_, mxA, _ := countLoopIter(inner, isApp)
 				c.check(mxA == 1, "R4", "each entry appended at most once", pos(attrs), "one append per entry", "an entry can be appended twice")
+				// the names compared with (by == or by !=), and: on the side where the name equals one of them the entry
+				// is not appended
 				var consts []string
+				skipsOnEqual := true
 				for b := range inner.blocks {
 					if iff, ok := b.Instrs[len(b.Instrs)-1].(*ssa.If); ok {
-						if cmp, ok := iff.Cond.(*ssa.BinOp); ok && cmp.Op == token.EQL {
+						if cmp, ok := iff.Cond.(*ssa.BinOp); ok && (cmp.Op == token.EQL || cmp.Op == token.NEQ) {
 							if s, ok := constString(cmp.Y); ok {
 								consts = append(consts, s)
+								eqSide := 0
+								if cmp.Op == token.NEQ {
+									eqSide = 1
+								}
+								if reachFromBlock(b.Succs[eqSide], isApp, isLoopHeadStart(inner)) {
+									skipsOnEqual = false
+								}
 							}
 						}
 					}
 				}
-				okSkip := len(consts) == 2 && ((consts[0] == "." && consts[1] == "..") || (consts[0] == ".." && consts[1] == "."))
+				sort.Strings(consts)
+				okSkip := len(consts) == 2 && consts[0] == "." && consts[1] == ".." && skipsOnEqual
 				c.check(okSkip, "R4", "only '.' and '..' are skipped", pos(attrs), "skip list is exactly {\".\", \"..\"}", fmt.Sprintf("the entry loop compares names with %q: other entries are dropped or dot entries kept", consts))
 				// the entry count comes from the packet and bounds the loop
 			}
